@@ -648,6 +648,12 @@ def read_use_stmt(line: str) -> tuple[Literal["use"], Use] | None:
             only_list.add(only_name)
             if len(only_split) == 2:
                 rename_map[only_name] = only_split[1].strip()
+    elif "=>" in trailing_line:
+        # USE mod, loc => rem: rename list, the rest of the module stays visible
+        for rename_stmt in trailing_line.split(","):
+            rename_split = rename_stmt.split("=>")
+            if len(rename_split) == 2:
+                rename_map[rename_split[0].strip()] = rename_split[1].strip()
     return "use", Use(use_mod, only_list, rename_map)
 
 
